@@ -626,7 +626,8 @@ def replay(ctx):
     ctx.count(len(lines)); ctx.distinct("r1"); ctx.distinct("r2")
     if rc != 0 or len(o1) != len(lines):
         print(err[-1500:]); ctx.violation(f"replay: harness still dies (rc={rc})", rp)
-    elif o1 != o2 or any(("," in a and not all(e.endswith(",1111") for e in a.split()[2:])) for a in o1 if a.startswith("ok ") and l.startswith("text moves")):
+    elif o1 != o2 or any(a.startswith("ok ") and not all(e.endswith(",1111") for e in a.split()[2:])
+                         for l, a in zip(lines, o1) if l.startswith("text moves")) or any(a.startswith("uncaught-exception") for a in o1):
         ctx.violation("replay still fails", rp)
 
 
